@@ -567,7 +567,8 @@ fn gen_topk(g: &mut G) -> Case {
 }
 
 fn gen_matmul(g: &mut G) -> Case {
-    let dt = g.num_dtype();
+    // rten implements MatMul / Gemm for f32 only (integer inputs are an unsupported element type)
+    let dt = if g.rng.chance(1, 12) { DType::I32 } else { DType::F32 };
     let (m, k, n) = (g.dim(), g.dim(), g.dim());
     let batch = g.shape(0, 2);
     let mut sa = g.bcast_operand(&batch);
@@ -584,7 +585,7 @@ fn gen_matmul(g: &mut G) -> Case {
 }
 
 fn gen_gemm(g: &mut G) -> Case {
-    let dt = g.rng.pick(&[DType::F32, DType::F32, DType::F32, DType::I32]);
+    let dt = if g.rng.chance(1, 12) { DType::I32 } else { DType::F32 };
     let (m, k, n) = (g.dim(), g.dim(), g.dim());
     let (ta, tb) = (g.rng.chance(1, 2), g.rng.chance(1, 2));
     let sa = if ta { vec![k, m] } else { vec![m, k] };
